@@ -135,6 +135,7 @@ type switchThread struct {
 	gated  bool // went through at least one gate
 	ticket *switchTicket
 	asleep bool
+	idle   bool // acceptRoutine inside Transport.Accept
 }
 
 type switchInst struct {
@@ -499,11 +500,11 @@ func (h *switchHarness) teardown() {
 	ts := h.tickets
 	h.tickets = nil
 	h.mu.Unlock()
-	close(h.tr.closec)
-	_ = h.sw.Stop()
 	for _, t := range ts {
 		t.rel <- "abort"
 	}
+	close(h.tr.closec)
+	_ = h.sw.Stop()
 	h.mu.Lock()
 	for _, in := range h.insts {
 		// a peer whose Start() has returned and that nobody stopped: stop it, or its goroutines stay for ever
@@ -636,6 +637,14 @@ func (h *switchHarness) observe(d map[int64]switchG) {
 			th.inst = t.inst
 		}
 	}
+	if acc := h.threads["acc"]; acc != nil {
+		acc.idle = false
+		for g, x := range d {
+			if !h.oldGo[g] && strings.Contains(x.stack, "(*Switch).acceptRoutine") && strings.Contains(x.stack, "(*switchTransport).Accept") {
+				acc.idle = true
+			}
+		}
+	}
 	for name, th := range h.threads {
 		if th.k != "rec" || th.ticket != nil {
 			continue
@@ -724,7 +733,7 @@ func (h *switchHarness) project() switchPost {
 			o.Pc, o.Out = "done", th.out
 		case th.asleep:
 			o.Pc = "Sleep"
-		case th.k == "acc":
+		case th.k == "acc" && th.idle:
 			o.Pc, o.I, o.ID = "idle", 0, "-"
 		default:
 			o.Pc = "running"
@@ -930,7 +939,19 @@ func switchRun(def switchRunDef, sleepOK bool, emit func(map[string]interface{})
 		}
 		d, ok := h.settle()
 		h.observe(d)
-		emit(map[string]interface{}{"ev": "Cmd", "k": k, "c": c, "note": note, "settled": ok, "cbs": h.takeCbs(), "post": h.project()})
+		post := h.project()
+		blocked := ""
+		for _, t := range post.Thr {
+			if t.Pc == "running" {
+				blocked = t.Name
+			}
+		}
+		if blocked != "" && ok {
+			// a thread waits for a lock (not at a gate): outside the grain of the model - the run ends here, not judged
+			emit(map[string]interface{}{"ev": "Skip", "k": k, "c": c, "why": "thread " + blocked + " is blocked outside a gate after this command"})
+			return
+		}
+		emit(map[string]interface{}{"ev": "Cmd", "k": k, "c": c, "note": note, "settled": ok, "cbs": h.takeCbs(), "post": post})
 		if !ok {
 			return
 		}
